@@ -28,7 +28,7 @@ def weights(**over):
 def describe(cfg, events):
     out = []
     for e in events:
-        d = {k: v for k, v in e.items() if k not in ("frames", "msg")}
+        d = {k: (v.hex() if isinstance(v, bytes) else v) for k, v in e.items() if k not in ("frames", "msg")}
         if "frames" in e:
             d["frames"] = [{k: v for k, v in NS.abstract(f).items() if k in ("cmd", "req", "hbh", "e2e", "t")} for f in e["frames"]]
         if "msg" in e:
@@ -41,7 +41,10 @@ DEFAULT_THEMES = (("handshake_in", 2, 40, 3, 400), ("handshake_out", 2, 40, 3, 4
 
 
 def run(run, prop, files, profile, w, n_quick, n_thorough, length, oracles=None, known=None, extra_scenarios=(),
-        themes=DEFAULT_THEMES):
+        themes=DEFAULT_THEMES, impl_only=(), on_broken=None):
+    """impl_only: pre-run (name, cfg, events, obs) histories that contain events the model has no counterpart for: judged by the
+    oracles only.  on_broken(run): extra failing-input search, called when an obligation / the correspondence broke and no
+    oracle has produced a failing input yet."""
     thorough = run.tier == "thorough"
     n = n_thorough if thorough else n_quick
     run.rule = (f"bounded-exhaustive enumeration (every action sequence up to depth 2 quick / 3 thorough over handshake and ready-state "
@@ -74,8 +77,13 @@ def run(run, prop, files, profile, w, n_quick, n_thorough, length, oracles=None,
             else:
                 raise
         run.extra.setdefault("enumerated", {})[theme] = len(enumerated) - k0
-    for sc in list(extra_scenarios) + enumerated + [None] * n:
-        if sc is not None and len(sc) == 4:
+    impl_only = [tuple(x) + ("impl-only",) for x in impl_only]
+    for sc in list(extra_scenarios) + impl_only + enumerated + [None] * n:
+        model_too = True
+        if sc is not None and len(sc) == 5:
+            name, cfg, events, obs, _ = sc
+            model_too = False
+        elif sc is not None and len(sc) == 4:
             name, cfg, events, obs = sc
         elif sc is None:
             s = seeds.pop(0)
@@ -106,8 +114,9 @@ def run(run, prop, files, profile, w, n_quick, n_thorough, length, oracles=None,
             orc(tr, viol)
         NO.no_deaths(tr, lambda clause, case, observed, expected=None, what="":
                      run.violation(clause, dict(case, scenario=name), observed, expected, what) if prop == "C14" else None)
-        cases.append(NS.coq_case(cfg, events, obs))
-        meta.append({"scenario": name, "n_events": len(events), "peers": [p["name"] for p in cfg["peers"]]})
+        if model_too:
+            cases.append(NS.coq_case(cfg, events, obs))
+            meta.append({"scenario": name, "n_events": len(events), "peers": [p["name"] for p in cfg["peers"]]})
         if len(run.samples) < 2:
             run.sample({"scenario": name, "events": describe(cfg, events)[:8]})
     run.extra["event_distribution"] = dict(sorted(dist.items()))
@@ -126,6 +135,8 @@ def run(run, prop, files, profile, w, n_quick, n_thorough, length, oracles=None,
                      {"first_disagreements (event*100000 + component bits)": detail.get(i)})
     for e in errs:
         run.mismatch("coq evaluation", {}, e)
+    if on_broken is not None and (run.broken or run.mismatches) and not run.violations:
+        on_broken(run)
     return run.finish(known_matcher=known)
 
 
